@@ -83,7 +83,7 @@ def parseOp : List String → Option Op
   | ["classify", k] => some (.classify (dec k))
   | ["selkey", k, e, d] => some (.selkey (dec k) (dec e) (dec d))
   | ["lookup", n] => some (.lookup (dec n))
-  | ["span", p, k, e, d, pl] => do
+  | "span" :: p :: k :: e :: d :: pl :: _slug => do    -- the slug the auth API also reports is not an input of the selection
     let path ← parsePath p
     let data ← parsePayload pl
     pure (.span path (dec k) (if e == "!" then none else some (dec e)) (dec d) data)
@@ -219,6 +219,9 @@ def mon (m : Mon) (op : List String) (_ : List (List String)) (obs : Option Stri
     -- the triple the request must be handled with
     let wantEnv : Str := if key.isEmpty || specLegacyB key then [] else env.getD []
     let f1 := if g "key" == key && g "env" == wantEnv && g "ds" == ds then []
+      else if g "env" != wantEnv then
+        [fail "C14:wrong-sampler-for-destination:environment-from-auth"
+           s!"key {enc key}: the auth API names the environment {enc wantEnv}, the span is handed to the collector (and its sampler and key fields selected) with environment {enc (g "env")}"]
       else [fail "C14:ingest-triple" s!"span handed to the collector with ({o}) for request ({enc key},{enc wantEnv},{enc ds})"]
     -- the fields ingestion must select: those of the sampler configured for the destination
     let f2 := if path == .otlp then [] else
